@@ -227,7 +227,7 @@ pub fn gen(rng: &mut Rng, thorough: bool, sink: &mut Sink) {
     for idx in [0i64, 7, 8, 131071] { sink.case(vec![4, lp, ep, idm, idx, setbit, mode, has, parses], "validator-table"); }
   } } } } } } }
   // (c) constructor sizes
-  for n in [0i64, 1, 131071, 131072, 131073, 131079, 131080, 131081, 1 << 20] { sink.case(vec![2, n, 1, n - 1, 1, n, 1, n + 7, 1, n + 8, 0, n - 1, 1, 0, n + 8, 1], "sizes"); }
+  for n in [0i64, 1, 131071, 131072, 131073, 131079, 131080, 131081, 1 << 20, (1 << 20) + 1, (1 << 20) + 9, 1 << 21, 3_000_001] { sink.case(vec![2, n, 1, n - 1, 1, n, 1, n + 7, 1, n + 8, 0, n - 1, 1, 0, n + 8, 1], "sizes"); }
   // (d) write sequences clustered inside bytes and at both ends
   let nseq = if thorough { 6000 } else { 600 };
   for k in 0..nseq {
